@@ -504,6 +504,9 @@ def do_op(ctx, aid, oi, table, op):
         return ("val", s.now)
     if k == "raise":
         raise BodyError(op[1] if len(op) > 1 else "body boom")
+    if k == "os_exit":
+        import os as _os
+        _os._exit(op[1])
     if k == "raise_sys":
         raise SystemExit(op[1] if len(op) > 1 else 3)
     if k == "ident":
